@@ -111,7 +111,17 @@ UF == UA \cup {Op(o, <<a, b>>) : o \in {"and", "or", "implies"}, a \in {Op("equa
                                  b \in {u \in UA : u.op = "equals"} \cup {Op("not", <<Ga(Y)>>), Ga(Fa(Y))}}
          \cup {Op("not", <<a>>) : a \in UA}
 
-Corpus == CASE Layer = "QF" -> QF [] Layer = "QB" -> QB [] Layer = "ARITH" -> ARITH [] Layer = "EQS" -> EQS [] Layer = "UF" -> UF
+\* ---- wide connectives: n-ary and / or with 3 .. 14 operands (every operand decisive under some interpretation),
+\* plain, with negated operands, and under not / implies / iff.  At most 10 distinct symbols, so that the
+\* interpretations can be enumerated (beyond 10 operands the first symbol is repeated in front).
+W(j) == Sym(<<"w1", "w2", "w3", "w4", "w5", "w6", "w7", "w8", "w9", "w10">>[j], TBool)
+WideArgs(n) == IF n <= 10 THEN [j \in 1..n |-> W(j)] ELSE [j \in 1..n |-> IF j <= n - 10 THEN W(1) ELSE W(j - (n - 10))]
+NegOdd(a) == [j \in 1..Len(a) |-> IF j % 2 = 1 THEN Op("not", <<a[j]>>) ELSE a[j]]
+WIDE == UNION {{Op(o, WideArgs(n)), Op(o, NegOdd(WideArgs(n))), Op("not", <<Op(o, WideArgs(n))>>),
+                Op("implies", <<Op(o, WideArgs(n)), W(1)>>), Op("iff", <<Op("and", WideArgs(n)), Op("or", WideArgs(n))>>)}
+               : o \in {"and", "or"}, n \in 3..14}
+
+Corpus == CASE Layer = "WIDE" -> WIDE [] Layer = "QF" -> QF [] Layer = "QB" -> QB [] Layer = "ARITH" -> ARITH [] Layer = "EQS" -> EQS [] Layer = "UF" -> UF
 
 VARIABLE done
 Init == done = FALSE /\ LET c == SetToSeq(Corpus)
